@@ -197,3 +197,39 @@ template <class M> void battery_c05(const M &m, const Ctx &ctx, RunStats &st, ui
 }
 
 }  // namespace sim
+
+namespace sim {
+// ------------------------------------------------------------------ C12: circulators that need a disabled incidence kind are immediately invalid
+template <class M> void battery_c12_disabled(const M &m, const Ctx &ctx, RunStats &st) {
+    const std::vector<std::string> OW = {"C12"};
+    bool V = m.has_vertex_bottom_up_incidences(), E = m.has_edge_bottom_up_incidences(), F = m.has_face_bottom_up_incidences();
+    if (V && E && F) return;
+    long n = 0;
+    auto dead = [&](const char *name, auto it, auto range, int centre) {
+        ++n;
+        if (it.valid()) ctx.fail(OW, std::string("circulator-valid-with-disabled-kind-") + name, std::string(name) + " on " + std::to_string(centre) + " is valid although a bottom-up kind it needs is disabled (V=" + std::to_string(V) + " E=" + std::to_string(E) + " F=" + std::to_string(F) + ")");
+        if (range.first.valid() || !(range.first == range.second)) ctx.fail(OW, std::string("range-nonempty-with-disabled-kind-") + name, std::string(name) + " range on " + std::to_string(centre));
+    };
+    int nv = (int)m.n_vertices(), ne = (int)m.n_edges(), nf = (int)m.n_faces(), nc = (int)m.n_cells();
+    for (int v = 0; v < nv && v < 6; ++v) {
+        VertexHandle h(v);
+        if (m.is_deleted(h)) continue;
+        if (!V) { dead("voh", m.voh_iter(h), m.outgoing_halfedges(h), v); dead("vih", m.vih_iter(h), m.incoming_halfedges(h), v); dead("vv", m.vv_iter(h), m.vertex_vertices(h), v); dead("ve", m.ve_iter(h), m.vertex_edges(h), v); }
+        if (!V || !E) { dead("vhf", m.vhf_iter(h), m.vertex_halffaces(h), v); dead("vf", m.vf_iter(h), m.vertex_faces(h), v); }
+        dead("vc", m.vc_iter(h), m.vertex_cells(h), v);   // needs all three; at least one is off here
+    }
+    for (int e = 0; e < ne && e < 6; ++e) {
+        EdgeHandle eh(e);
+        if (m.is_deleted(eh)) continue;
+        HalfEdgeHandle h(2 * e + (e & 1));
+        if (!E) { dead("hehf", m.hehf_iter(h), m.halfedge_halffaces(h), h.idx()); dead("hef", m.hef_iter(h), m.halfedge_faces(h), h.idx()); dead("ehf", m.ehf_iter(eh), m.edge_halffaces(eh), e); dead("ef", m.ef_iter(eh), m.edge_faces(eh), e); }
+        if (!E || !F) { dead("hec", m.hec_iter(h), m.halfedge_cells(h), h.idx()); dead("ec", m.ec_iter(eh), m.edge_cells(eh), e); }
+    }
+    if (!F) {
+        for (int c = 0; c < nc && c < 6; ++c) { CellHandle h(c); if (!m.is_deleted(h)) dead("cc", m.cc_iter(h), m.cell_cells(h), c); }
+        for (int f = 0; f < nf && f < 6; ++f) { if (m.is_deleted(FaceHandle(f))) continue; HalfFaceHandle h(2 * f); dead("bhfhf", m.bhfhf_iter(h), m.boundary_halfface_halffaces(h), h.idx()); }
+    }
+    st.add("c12_disabled_kind_circulators_checked", n);
+    if (n) st.add("probe_c12_disabled_kind_circulators");
+}
+}  // namespace sim
